@@ -252,8 +252,14 @@ def validate_trace(pid, path, rc, tag, impl=True):
     if impl:
         icfg = vlib.cfg_text("TSpec", ic, invariants=PROP_INVS[pid] + ["ImplInv"], postcondition="Accepted")
         ir = vlib.run_tlc(SUB, fam["itrace"], icfg, tag + "_impl", workers=1, env=env, dfs=True, heap="3g", timeout=900)
-        if ir.error or ir.timed_out:
-            raise MachineryError(f"trace validation (impl) failed: {ir.error or 'timeout'}")
+        if ir.timed_out:
+            raise MachineryError("trace validation (impl) failed: timeout")
+        if ir.error:
+            # the fidelity level must never turn into an alarm or a machinery error: an event the trace
+            # spec cannot even evaluate is an event the ImplSpec does not explain - drift
+            log(f"[{pid}] note: the fidelity-level trace spec could not evaluate an event ({ir.error.splitlines()[0][:200]}): "
+                f"counted as drift")
+            ir.unmatched = ir.unmatched or (0, "evaluation error")
     return pr, ir
 
 
